@@ -411,6 +411,91 @@ func (e *renv) scenarioV2(r *Rng, s *sinks, d density) {
 }
 
 // ---------------------------------------------------------------------------------------------
+// timeout boundaries: a packet whose timeout is a few blocks / seconds ahead of the destination.  The
+// timeout guard runs before proof verification, so a message with a corrupted proof tells on which
+// side of the boundary the chain is (err:timeout vs err:proof) without consuming the packet; the valid
+// message is delivered at a random point (ok strictly before the timeout, err:timeout from it on).
+
+func (e *renv) scenarioBoundaryV1(r *Rng, s *sinks) {
+	p := e.path
+	revA, revB := clienttypes.ParseChainID(e.a.ChainID), clienttypes.ParseChainID(e.b.ChainID)
+	byHeight := r.Bool()
+	var th clienttypes.Height
+	var tts uint64
+	if byHeight {
+		// SendPacket + UpdateClient move B two blocks ahead before the first attempt
+		th = clienttypes.NewHeight(revB, uint64(e.b.ProposedHeader.Height)+5+uint64(r.Intn(5)))
+	} else {
+		tts = uint64(e.coord.CurrentTime.UnixNano()) + uint64(20+r.Intn(15))*uint64(time.Second) + uint64(r.Intn(3))
+	}
+	data := []byte("boundary-" + r.Str("abc", 3))
+	seq, err := p.EndpointA.SendPacket(th, tts, data)
+	if err != nil {
+		return // the timeout was already behind the destination as seen by the sender's client: nothing to test
+	}
+	e.noteCons(p.EndpointB)
+	k := channeltypes.NewPacket(data, seq, p.EndpointA.ChannelConfig.PortID, p.EndpointA.ChannelID, p.EndpointB.ChannelConfig.PortID, p.EndpointB.ChannelID, th, tts)
+	base := v1msg{pkt: k}
+	key := host.PacketCommitmentKey(k.SourcePort, k.SourceChannel, k.Sequence)
+	(&mctxV1{prover: e.a, rev: revA}).reproof(&base, key, last(e.cons[consKey(p.EndpointB)]), true)
+	bad := base.clone()
+	bad.proof = flip(r, bad.proof)
+	bad.truth.intact = false
+	deliverAt := r.Intn(14)
+	for i := 0; i < 12; i++ {
+		if !byHeight {
+			now := uint64(e.coord.CurrentTime.UnixNano())
+			switch {
+			case now < tts && r.Chance(0.3):
+				e.coord.IncrementTimeBy(time.Duration(tts-now) - time.Duration(r.Intn(2))) // exactly the timeout, or 1ns before
+			case r.Chance(0.7):
+				e.coord.IncrementTimeBy(time.Duration(1+r.Intn(6)) * time.Second)
+			}
+		}
+		if i == deliverAt {
+			if e.attemptRecvV1(s, base, "boundary-valid") == "ok" {
+				return
+			}
+		}
+		e.attemptRecvV1(s, bad, "boundary-proof-flip")
+	}
+	e.attemptRecvV1(s, base, "boundary-valid-late")
+}
+
+func (e *renv) scenarioBoundaryV2(r *Rng, s *sinks) {
+	revA := clienttypes.ParseChainID(e.a.ChainID)
+	T := uint64(e.coord.CurrentTime.Unix()) + 20 + uint64(r.Intn(15))
+	pkt, err := e.pathV2.EndpointA.MsgSendPacket(T, mockv2.NewMockPayload(mockv2.ModuleNameA, mockv2.ModuleNameB))
+	if err != nil {
+		return
+	}
+	e.noteCons(e.pathV2.EndpointB)
+	base := v2msg{pkt: pkt}
+	(&mctxV2{prover: e.a, rev: revA}).reproof(&base, hostv2.PacketCommitmentKey(pkt.SourceClient, pkt.Sequence), last(e.cons[consKey(e.pathV2.EndpointB)]), true)
+	bad := base.clone()
+	bad.proof = flip(r, bad.proof)
+	bad.truth.intact = false
+	deliverAt := r.Intn(12)
+	for i := 0; i < 10; i++ {
+		now := uint64(e.coord.CurrentTime.UnixNano())
+		switch {
+		case now < T*1_000_000_000 && r.Chance(0.3):
+			// exactly T seconds, or one nanosecond before (still second T-1)
+			e.coord.IncrementTimeBy(time.Duration(T*1_000_000_000-now) - time.Duration(r.Intn(2)))
+		case r.Chance(0.7):
+			e.coord.IncrementTimeBy(time.Duration(1+r.Intn(5))*time.Second + time.Duration(r.Intn(1_000_000_000)))
+		}
+		if i == deliverAt {
+			if e.attemptRecvV2(s, base, "boundary-valid") == "ok" {
+				return
+			}
+		}
+		e.attemptRecvV2(s, bad, "boundary-proof-flip")
+	}
+	e.attemptRecvV2(s, base, "boundary-valid-late")
+}
+
+// ---------------------------------------------------------------------------------------------
 // expiry: after a jump past the trusting period the clients are Expired; valid messages must fail
 
 func (e *renv) scenarioExpiry(r *Rng, s *sinks) {
@@ -471,6 +556,10 @@ func relayHistory(r *Rng, s *sinks) {
 	e.scenarioV1(r, s, d, e.path, e.pathOrd, false)
 	e.scenarioV1(r, s, d, e.pathOrd, e.path, true)
 	e.scenarioV2(r, s, d)
+	for i := 0; i < 2; i++ {
+		e.scenarioBoundaryV1(r, s)
+		e.scenarioBoundaryV2(r, s)
+	}
 	e.scenarioExpiry(r, s)
 }
 
